@@ -167,6 +167,8 @@ GP.build("C16", "The recorded trajectory is exactly what the agent experienced",
           ("C16_frame", "respond_frame", "(nor do BAD_REQUEST replies touch any trajectory)"),
           ("C16_handout", "reset_done_content", "RESET_DONE hands the trajectory out iff requested and restarts it from the new initial view"),
           ("C16_files", "reset_one_effect", "with save_trajectories every reset appends exactly one record (name, role, trajectory) per agent in the game"),
+          ("C16_files_exact", "reset_files_exact", "when the reset task resets the game, the trajectory files grow by exactly one record (name, role, trajectory) per agent in the game, in the order of the agent table - or by nothing when save_trajectories is off"),
+          ("C16_files_frame", "files_frame", "and no other label ever writes a record"),
           ("C16_wf", "traj_wf_reachable", "in every reachable state every agent's trajectory has exactly one more state than actions and as many rewards as actions"),
           ("C16_one_label", "traj_step_reachable", "ACROSS LABELS: from every reachable state one label leaves an agent's trajectory alone, appends exactly one (action, reward, view) triple whose reward and view are the stored ones, or restarts it from the stored view (after RESET_DONE)")],
          example=EX % "C16")
